@@ -38,6 +38,9 @@ type taskSpec struct {
 }
 
 type wfSpec struct {
+	// CallHook: a call role started at enter_CONFIGURED (during creation) and awaited at
+	// after_STOP_ACTIVITY: pending for as long as no run was stopped
+	CallHook      bool        `json:"pending_call_hook,omitempty"`
 	Name          string      `json:"name"`
 	Hosts         []string    `json:"hosts"`
 	Tasks         []*taskSpec `json:"tasks"`
@@ -142,7 +145,10 @@ func yamlWorkflow(w *wfSpec) string {
 			}
 		}
 	}
-	if len(w.Tasks) == 0 {
+	if w.CallHook {
+		b.WriteString("  - name: pendingcall\n    call:\n      func: sp.Probe()\n      trigger: enter_CONFIGURED\n      await: after_STOP_ACTIVITY\n      timeout: 10m\n      critical: false\n")
+	}
+	if len(w.Tasks) == 0 && !w.CallHook {
 		b.WriteString("  []\n")
 	}
 	return b.String()
